@@ -146,6 +146,9 @@ const VARS: &[&str] = &["s", "p", "o", "x", "g"];
 struct QG<'a> {
     rng: &'a mut Rng,
     pl: &'a Pools,
+    /// the dataset the query will run on: most triple patterns are generalisations of one of its
+    /// triples, so that each step has no / one / many matches with comparable frequency
+    data: &'a [Q],
     /// blank-node labels may not be reused across BGPs: a fresh prefix per BGP
     bgp_no: usize,
     tp_budget: usize,
@@ -192,12 +195,44 @@ impl QG<'_> {
         self.tp_budget -= n;
         let mut s = String::new();
         for _ in 0..n {
+            if !self.data.is_empty() && self.rng.chance(3, 5) {
+                let q = self.rng.pick(self.data).clone();
+                let a = self.generalise(&q.s, 0, false);
+                let b = if self.rng.chance(1, 2) { sparql_term(&q.p) } else { self.var() };
+                let c = self.generalise(&q.o, 0, true);
+                s += &format!("{} {} {} . ", a, b, c);
+                continue;
+            }
             let a = self.node(0, false);
             let b = self.pred();
             let c = self.node(0, true);
             s += &format!("{} {} {} . ", a, b, c);
         }
         s
+    }
+
+    /// a pattern term that matches the data term `t`: the term itself, a variable, a placeholder,
+    /// or (for a quoted triple) a quoted pattern generalising its components
+    fn generalise(&mut self, t: &T, depth: usize, _object: bool) -> String {
+        match t {
+            T::Triple(b) if self.rng.chance(1, 2) => {
+                let s = self.generalise(&b[0], depth + 1, false);
+                let p = if self.rng.chance(1, 2) { sparql_term(&b[1]) } else { self.var() };
+                let o = self.generalise(&b[2], depth + 1, true);
+                format!("<< {} {} {} >>", s, p, o)
+            }
+            // a blank node of the data cannot be written as a constant (it would be a placeholder)
+            T::Bnode(_) => {
+                if self.rng.chance(1, 3) { format!("_:l{}_{}", self.bgp_no, self.rng.below(2)) } else { self.var() }
+            }
+            T::Triple(b) if b.iter().any(|x| matches!(x, T::Bnode(_))) => self.var(),
+            _ => match self.rng.below(10) {
+                0..=3 => sparql_term(t),
+                4..=7 => self.var(),
+                8 => format!("_:l{}_{}", self.bgp_no, self.rng.below(2)),
+                _ => "[]".to_string(),
+            },
+        }
     }
 
     fn constant(&mut self) -> String {
@@ -432,6 +467,12 @@ const FIXED: &[&str] = &[
     "SELECT * WHERE { ?s ?p ?o FILTER(?o = 1) }",
     "SELECT * WHERE { ?s ?p ?o FILTER(?o < 2) }",
     "SELECT * WHERE { ?s ?p ?o FILTER(?o = ?s) }",
+    "SELECT * WHERE { ?s ?p ?o BIND(!(?o < ?o) AS ?z) }",
+    "SELECT * WHERE { ?s ?p ?o . ?s ?p ?x FILTER(!(?o < ?x)) }",
+    "SELECT * WHERE { ?s ?p ?o . ?s ?p ?x FILTER(!(?o = ?x)) }",
+    "SELECT * WHERE { ?s ?p ?o . ?x ?p ?o BIND((?s = ?x) AS ?z) }",
+    "SELECT * WHERE { ?s ?p ?o BIND(STR(?o) = STR(?s) AS ?z) }",
+    "SELECT * WHERE { ?s ?p ?o BIND(LANG(?o) AS ?z) BIND(DATATYPE(?o) AS ?y) }",
     "SELECT * WHERE { ?s ?p ?o FILTER(?o = \"a\"@en) }",
     "SELECT * WHERE { ?s ?p ?o FILTER(sameTerm(?o, \"a\"@en)) }",
     "SELECT * WHERE { ?s ?p ?o FILTER(LANG(?o) = \"en\") }",
@@ -532,7 +573,7 @@ pub fn generate(ctx: &mut GenCtx) {
         // several queries per dataset
         for _ in 0..3 {
             let text = {
-                let mut g = QG { rng: &mut ctx.rng, pl: &pl, bgp_no: 0, tp_budget: 4 };
+                let mut g = QG { rng: &mut ctx.rng, pl: &pl, data: &ds, bgp_no: 0, tp_budget: 4 };
                 g.query()
             };
             if emit_text(ctx, &ds, &text, "gen") {
